@@ -16,6 +16,22 @@ MSG_IGNORE, MSG_NEWKEYS, MSG_GLOBAL_REQUEST = 2, 21, 80
 HUGE = 1 << 30
 
 
+class Stall(Exception):
+    pass
+
+
+async def bounded(coro, what, turns=40000):
+    """await `coro` for a bounded number of event-loop turns (no wall-clock waiting: a stalled session -
+    which is how a broken re-key shows - must stay cheap)"""
+    t = asyncio.ensure_future(coro)
+    for i in range(turns):
+        if t.done():
+            return t.result()
+        await asyncio.sleep(0 if i % 50 else 0.001)
+    t.cancel()
+    raise Stall(what)
+
+
 def pattern(tag, n, off=0):
     return bytes((tag * 37 + off + i) % 251 + 1 for i in range(n))
 
@@ -129,8 +145,9 @@ async def run_script(sc):
     tun = wire = conn = None
     try:
         P.clock.now = 0.0
-        tun, wire, acc, conn = await S.tapped_pair(P, Srv, srv_kw=dict(conn_kw(sc, 's'), encoding=None),
-                                                   cli_kw=dict(conn_kw(sc, 'c'), client_factory=Cli))
+        tun, wire, acc, conn = await bounded(
+            S.tapped_pair(P, Srv, srv_kw=dict(conn_kw(sc, 's'), encoding=None),
+                          cli_kw=dict(conn_kw(sc, 'c'), client_factory=Cli)), 'connection setup')
         taps = tun.taps
         cchans = []
 
@@ -138,7 +155,7 @@ async def run_script(sc):
             ch, sess = await conn.create_session(CS, encoding=None)
             sess.idx = len(cchans)
             cchans.append(ch)
-        await open_chan()
+        await bounded(open_chan(), 'opening the first channel (rekey limits already apply)')
         await memwire.settle(10)
         wire.auto = False
         tasks = []
@@ -336,8 +353,9 @@ async def run_busy(sc):
     wire = conn = None
     try:
         P.clock.now = 0.0
-        tun, wire, acc, conn = await S.tapped_pair(P, Srv, srv_kw=dict(conn_kw(sc, 's'), encoding=None),
-                                                   cli_kw=dict(conn_kw(sc, 'c'), client_factory=Cli))
+        tun, wire, acc, conn = await bounded(
+            S.tapped_pair(P, Srv, srv_kw=dict(conn_kw(sc, 's'), encoding=None),
+                          cli_kw=dict(conn_kw(sc, 'c'), client_factory=Cli)), 'connection setup')
         taps = tun.taps
         if sc.get('chunk'):
             def filt(side, data):
@@ -357,7 +375,7 @@ async def run_busy(sc):
             cchans.append(ch)
             return ch
         for _ in range(sc['nchan']):
-            await open_chan()
+            await bounded(open_chan(), 'opening a channel (rekey limits already apply)')
         nwr = [0]
 
         async def writer(side, idx, rounds):
